@@ -6,7 +6,7 @@ globals().update(
         pid="C17",
         props=["JaqalProofs/Props/C17.lean"],
         targets=["JaqalProofs.Props.C17"],
-        diffs=[("harness.agents.qsyn_diff", 1200, 10000), ("harness.agents.c17_scale", 600, 4000)],
+        diffs=[("harness.agents.qsyn_diff", 1200, 10000), ("harness.agents.c17_scale", 600, 4000), ("harness.agents.c17_traps", 4000, 40000)],
         trusted=[
             STD_TRUST,
             "hand-written model JaqalModel/Model/FrontEnds.lean: a common program type and, for each front end, the S-expression it hands to circuitbuilder.build — lowerQ (Stack frames, QBlock.build, starts_with_prepare, Namer, circuit_from_stack), lowerOO (CircuitBuilder method calls), parseSx (what parse_to_sexpression returns for the rendered text)",
